@@ -33,6 +33,18 @@ CHECKS = {
             "exhaustive enumeration of call histories (send N, EOS, drain) for all N in a range x GOP-shape cross product, each executed on the real library under the controlled scheduler; quiescence decides end of output",
             "Every history 'send N pictures, EOS, drain' for all N in 0..10 (thorough 0..20,33,34,65) crossed with hierarchical levels x intra period x refresh type x overlays, buffering-field deviations and pts alphabets is executed; packet count/order/pts/dts/p_app_private/EOS, recon count/positions and decoded count/order are checked on each.",
             "canonical schedule only (schedule independence is C04); 64x64 pictures; libaom as decoder", "4/C03"),
+    "C05": ("encdrv under sched", "exploration",
+            "exhaustive cross product of logical_processors / unpin / target_socket values x size x content x preset x tiling x bit depth; differential oracle against the logical_processors=1 session",
+            "Every listed tuple is encoded for all 8 logical-processor classes and the pinning/socket combinations under the controlled scheduler's canonical schedule; packets and recon must be byte-identical to the lp=1 run.",
+            "single-socket host; sizes <= 256x192; canonical schedule (schedule independence is C04)", "4/C05"),
+    "C06": ("encdrv", "exploration",
+            "exhaustive cross product of instruction-set levels x content x bit depth x pipeline x preset (x tool deviations); differential oracle against the C-only session",
+            "Every listed tuple is encoded with use_cpu_flags limited to C, SSE2, SSSE3, SSE4.1, AVX2 and ALL; packets and recon must be byte-identical to the C-only run.",
+            "AVX-512 kernels are not compiled in the default build; 64x64 / 144x112 pictures", "4/C06"),
+    "C11": ("encdrv (asan) under sched", "exploration",
+            "bounded-exhaustive enumeration of configurations (deviation bound 1) x extreme sizes x qp extremes x contents in an ASan+UBSan build; deadlock detection by the controlled scheduler",
+            "Every configuration within deviation bound 1 of the base plus extreme picture shapes, qp 0/63 and all contents is encoded under ASan+UBSan; any sanitizer report, error packet, deadlock, watchdog overrun or teardown error is a violation keyed by (kind, function / configuration class).",
+            "UBSan restricted to arithmetic UB with observable effect; sizes <= 4096x64 / 64x2160 (4096x2160 thorough)", "4/C11"),
 }
 
 NOT_YET = {}
